@@ -83,6 +83,10 @@ def run_kani_part(pid, part, tier, seed, report):
             else:
                 report['other_property_failures'].append({'harness': q, 'check': desc})
     report['kani_wall_s'] += wall
+    n_lab = sum(res[q].labelled.get(pid, 0) for q in qualified)
+    report['property_assertions'] = report.get('property_assertions', 0) + n_lab
+    if n_lab == 0 and owner != pid and not part.get('no_labels'):
+        incon.append('family %s: no reachable assertion labelled %s was checked (harness/label mismatch)' % (part['family'], pid))
     return cands, incon
 
 
@@ -147,6 +151,7 @@ def write_evidence(pid, tier, seed, spec, report, wall, n_viol, extra_assumption
         'bounds': spec.get('bounds', {}),
         'outside': spec.get('outside', []),
         'witnesses_satisfied': report['witnesses'],
+        'property_assertions_checked': report.get('property_assertions', 0),
         'not_decided': report['inconclusive'],
         'counterexamples': report['counterexamples'],
         'known_findings_hit': report['known'],
